@@ -912,7 +912,15 @@ def restore_staged_mix():
     steps.append({"ev": "rm", "paths": ["top.txt", "d"]})
     steps.append({"ev": "lsfiles"})
     steps.append({"ev": "status"})
-    save("restore_staged_mix", ["C09", "C04", "C06"], steps)
+    steps.append(w("fresh/x", "x\n"))                                      # a directory that exists only in the staging area
+    steps.append(w("fresh/sub/y", "y\n"))
+    steps.append({"ev": "add", "paths": ["fresh"]})
+    steps.append({"ev": "restores", "paths": ["fresh"]})
+    steps.append({"ev": "lsfiles"})
+    steps.append({"ev": "add", "paths": ["fresh"]})
+    steps.append({"ev": "restores", "paths": ["fresh/sub"]})
+    steps.append({"ev": "lsfiles"})
+    save("restore_staged_mix", ["C09", "C04", "C06", "C18"], steps)
 
 
 def add_dir_member():
